@@ -488,7 +488,11 @@ func coqCase(in []zed.Value, fused zed.Type, out []zed.Value) (string, bool) {
 		}
 		outs = append(outs, "OX "+t+" "+b)
 	}
-	return fmt.Sprintf("([%s], %s, [%s], %v)", strings.Join(ins, "; "), ft, strings.Join(outs, "; "), cmpVals), true
+	var plain []string
+	for _, v := range in {
+		plain = append(plain, fmt.Sprint(classOf(v, fused) == "plain"))
+	}
+	return fmt.Sprintf("([%s], %s, [%s], %v, [%s])", strings.Join(ins, "; "), ft, strings.Join(outs, "; "), cmpVals, strings.Join(plain, ";")), true
 }
 
 // ---------------------------------------------------------------- driver
@@ -497,9 +501,9 @@ func c20(o Opts) error {
 	res := NewResult("C20")
 	rng := NewRng(mixSeed(o.Seed))
 	thorough := o.Tier == "thorough"
-	c := &checker{res: res, maxModel: 600}
+	c := &checker{res: res, maxModel: 450}
 	// every k-th case of a generator goes to the Coq correspondence file
-	mCore, mExt, mSamp, mRand := 3, 5, 8, 10
+	mCore, mExt, mSamp, mRand := 4, 6, 8, 10
 	if thorough {
 		c.maxModel = 6000
 		mCore, mExt, mSamp, mRand = 4, 20, 20, 20
@@ -535,7 +539,7 @@ func c20(o Opts) error {
 			return err
 		}
 	}
-	nsample := 700
+	nsample := 500
 	if thorough {
 		nsample = 8000
 	}
@@ -547,7 +551,7 @@ func c20(o Opts) error {
 	}
 	res.Exhaustive = true
 	// (3) random sequences over the whole type system
-	nrand := 1200
+	nrand := 900
 	if thorough {
 		nrand = 25000
 	}
@@ -561,7 +565,7 @@ func c20(o Opts) error {
 		c.check("random-"+kind, zctx, vals, i%mRand == 0)
 	}
 	// (4) large inputs: several batches, several spill frames
-	nlarge := 3
+	nlarge := 2
 	if thorough {
 		nlarge = 25
 	}
